@@ -17,7 +17,8 @@ package rsyncwire
 //@ func (*rsyncwire.Conn).WriteByte
 //@   modifies rsyncwire.CountingWriter.BytesWritten
 //@ func (*rsyncwire.Conn).WriteInt32
-//@   modifies rsyncwire.CountingWriter.BytesWritten
+//@   modifies rsyncwire.CountingWriter.BytesWritten, ghost.int32sWritten
+//@   ensures [counted] ghost.int32sWritten == old(ghost.int32sWritten) + 1
 //@ func (*rsyncwire.Conn).WriteInt64
 //@   modifies rsyncwire.CountingWriter.BytesWritten
 //@ func (*rsyncwire.Conn).WriteString
